@@ -25,7 +25,7 @@ def replay_file(path):
     from .cli import load_contracts
     load_contracts()
     mod = importlib.import_module("props." + prop)
-    rep = Report(prop, "quick", 0, level=getattr(mod, "LEVEL", "proof"))
+    rep = Report(prop, "quick", 0, level=(getattr(mod, "META", None) or {}).get("level") or getattr(mod, "LEVEL", "proof"))
     rep.quiet = True
     mod.run(rep, "quick")
     hits = [r for r in rep.results if r.oid == oid]
